@@ -115,6 +115,17 @@ Theorem C13_destructor_exactly_once : forall ops g, glegal g0 ops -> grun g0 ops
 Proof. exact destructor_exactly_once. Qed.
 Print Assumptions C13_destructor_exactly_once.
 
+(* legal histories never fault: every live object of every reachable state satisfies the representation invariant
+   (hence all the theorems above hold for every object a client can ever hold), and the next call of a well-behaved
+   client returns an object unless it is a concatenation whose total size does not fit in size_t *)
+Theorem C13_reachable_objects_wf_and_calls_return : forall ops g, glegal g0 ops -> grun g0 ops = Some g ->
+  (forall k e, heap (g_st g) k = Some e -> wf (e_obj e)) /\
+  (forall o, legal g o -> gstep g o = None ->
+     exists f a b da db, o = OConcat f a b /\ get (g_st g) a = Some da /\ get (g_st g) b = Some db /\
+       size da <> 0 /\ size db <> 0 /\ M64 <= size da + size db).
+Proof. exact reachable_wf. Qed.
+Print Assumptions C13_reachable_objects_wf_and_calls_return.
+
 Example C13_nonvacuous :
   let a := DLeaf (mkLeaf 1 [10;11;12;13;14]) in
   let b := DLeaf (mkLeaf 2 [20;21;22]) in
@@ -147,10 +158,14 @@ Example C13_history_nonvacuous :
   let ops := [OCreate 1 [10;11;12;13;14]; OCreate 2 [20;21;22]; OConcat 3 1 2; OSubrange 4 3 5 3; OCopyRegion 5 3 1;
               OSubrange 6 3 2 4; ORelease 1; ORelease 2; ORelease 3; ORetain 6; ORelease 2; ORelease 1; ORelease 6; ORelease 6] in
   (* call 4 returns buffer 2 itself, call 5 returns buffer 1 itself (whole leaves), call 6 a new two-record object *)
-  glegal g0 ops /\ exists g, grun g0 ops = Some g /\ dlog (g_st g) = [1; 2] /\ g_created g = [1; 2] /\
-                           g_held g 1 = 0%nat /\ g_held g 6 = 0%nat.
+  glegal g0 ops /\
+  match grun g0 ops with
+  | Some g => dlog (g_st g) = [1; 2] /\ g_created g = [1; 2] /\ List.map (g_held g) [1; 2; 3; 6] = [0; 0; 0; 0]%nat /\
+              List.map (heap (g_st g)) [1; 2; 3; 6] = [None; None; None; None]
+  | None => False
+  end.
 Proof.
   split.
-  - vm_compute. intuition (try discriminate; try congruence; try lia).
-  - eexists. split; [vm_compute; reflexivity|]. repeat split; reflexivity.
+  - vm_compute. repeat split; try (intro; discriminate); try (intros []); try (right; lia).
+  - vm_compute. repeat split; reflexivity.
 Qed.
